@@ -430,6 +430,9 @@ def _reset():
     for _, c in _classes():
         c._PALETTE_NO_COLOR = None
     _HELD.clear()
+    _ADDR_CLASS.clear()
+    if len(_PINNED) > 250000:
+        _PINNED.clear()
     for c in list(color._GSYNCED_PALETTES):
         if c is not color.GlobalPalette:
             del color._GSYNCED_PALETTES[c]
@@ -440,38 +443,17 @@ def _err(e):
     return "err " + type(e).__name__
 
 
-# --- allocation pressure: make the addresses of discarded enum field palettes the next ones handed out.
-# (Only addresses are steered; any program that allocates objects between two renderings can do the same.)
-_PINNED = []          # filler objects that keep uninteresting free blocks occupied (kept over the whole run)
-_HELD = []            # filler objects sitting on the addresses of discarded cache keys
+# --- allocation pressure (provokes the reuse of addresses of discarded palettes; CPython hands a freed
+# block out again to the next object of the same size, the harness only makes sure that this next object
+# is a palette of the same class and not some string).  Nothing here touches the package: configurations
+# are instances of a ColorsConfig subclass whose cache accessors tell the harness when a palette is about
+# to be created / has been created, fillers are bare instances of a Palette subclass.
+_PINNED = []          # fillers that keep uninteresting free blocks occupied (kept over the whole run)
+_HELD = {}            # palette class -> fillers sitting on addresses of dead palettes of that class
+_ADDR_CLASS = {}      # address -> class of the (coloured) palette that was created there in this case
 _FILLER = None
-
-
-def _live_palette_ids(confs):
-    """ids of the palettes that are still referenced (configuration caches, sub-palettes, per-class caches)"""
-    import ak.color as color
-    todo = [c._PALETTE_NO_COLOR for _, c in _classes() if c._PALETTE_NO_COLOR is not None]
-    todo += list(color._GSYNCED_PALETTES.values())
-    for c in list(confs.values()) + [color._GLOBAL_COLORS_CONF]:
-        if c is not None:
-            todo += list(c._cache.values())
-    seen = set()
-    while todo:
-        p = todo.pop()
-        if id(p) not in seen:
-            seen.add(id(p))
-            todo += list(getattr(p, "_sub_palettes", {}).values())
-    return seen
-
-
-def _key_addrs(enums, confs):
-    """addresses used as keys by the cell caches of the live enum field types whose object is gone"""
-    res = set()
-    for ft in enums.values():
-        for key in getattr(ft, "_cache", {}):
-            if isinstance(key, int):
-                res.add(key)
-    return res - _live_palette_ids(confs) if res else res
+_SPY = None
+_FIRST_BLOCK = 0x50   # offset of the first object of a 16 KiB pymalloc pool (pool header 48 + GC and dict pre-headers 32)
 
 
 def _filler_class():
@@ -485,26 +467,66 @@ def _filler_class():
     return _FILLER
 
 
+def _about_to_create(cls, new=object.__new__):
+    """a palette of class `cls` is going to be allocated: make the address of a dead palette of the same class
+    the next free block, and the only free block of the partially used pools (so that temporaries created
+    on the way cannot shuffle it away: they go to a fresh pool)"""
+    held = _HELD.pop(cls, None)
+    if not held:
+        return
+    want = set(id(f) for f in held)
+    held.clear()
+    filler = _filler_class()
+    keep = None
+    for _ in range(60000):
+        f = new(filler)
+        if keep is None and id(f) in want:
+            keep = f
+        elif keep is not None and (id(f) & 0x3FFF) == _FIRST_BLOCK:
+            break                   # first block of an empty pool: everything before it is occupied now
+        else:
+            _PINNED.append(f)
+    f = None
+    keep = None                     # freed last: handed out first
+
+
+def _spy_conf_class():
+    global _SPY
+    if _SPY is None:
+        from ak.color import ColorsConfig
+
+        class _SpyConf(ColorsConfig):
+            __slots__ = ()
+
+            def get_cached_obj(self, cache_key):
+                res = super().get_cached_obj(cache_key)
+                if res is None:
+                    _about_to_create(cache_key)
+                return res
+
+            def put_into_cache(self, cache_key, the_obj):
+                _ADDR_CLASS[id(the_obj)] = cache_key
+                super().put_into_cache(cache_key, the_obj)
+        _SPY = _SpyConf
+    return _SPY
+
+
 def _burst(cls, new=object.__new__):
-    """allocation pressure, part 1 (immediately after a rendering, before anything else allocates):
-    occupy the palette-sized blocks that the rendering has just released"""
+    """immediately after a rendering, before anything else allocates: occupy the palette-sized blocks that
+    the rendering has just released"""
     return [new(cls), new(cls), new(cls), new(cls), new(cls), new(cls), new(cls), new(cls),
             new(cls), new(cls), new(cls), new(cls), new(cls), new(cls), new(cls), new(cls),
             new(cls), new(cls), new(cls), new(cls), new(cls), new(cls), new(cls), new(cls)]
 
 
-def _sort_out(fillers, want):
-    """keep the fillers that sit on addresses of discarded cache keys apart from the others"""
+def _sort_out(fillers):
+    """fillers that landed on the address of a dead palette are held for the next palette of that class"""
     for f in fillers:
-        (_HELD if id(f) in want else _PINNED).append(f)
-
-
-def _release(pad):
-    """part 2 (right before a rendering): the held blocks are handed out again after `pad` other blocks
-    (the palettes a rendering creates before it asks for the enum field palette)"""
-    _HELD.clear()
-    for _ in range(min(pad, len(_PINNED))):
-        _PINNED.pop()
+        cls = _ADDR_CLASS.get(id(f))
+        if cls is not None:
+            _HELD.setdefault(cls, []).append(f)
+        else:
+            _PINNED.append(f)
 
 
 def _flat_descr(conf):
@@ -517,7 +539,7 @@ def _replay(case, before=None, after=None):
     import ak.color as color
     _reset()
     confs, enums, objs = {}, {}, {}
-    filler = _filler_class()
+    filler, spy = _filler_class(), _spy_conf_class()
     failed = set()        # configurations whose constructor raised: what refers to them is skipped
     out = []
     for i, op in enumerate(case["ops"]):
@@ -527,16 +549,18 @@ def _replay(case, before=None, after=None):
         try:
             if op[0] == "conf":
                 failed.add(op[1])
-                confs[op[1]] = color.ColorsConfig(case["confs"][op[1]]["items"], no_color=bool(case["confs"][op[1]]["nc"]))
+                confs[op[1]] = spy(case["confs"][op[1]]["items"], no_color=bool(case["confs"][op[1]]["nc"]))
                 failed.discard(op[1])
                 out.append("ok")
             elif op[0] == "drop":
                 del confs[op[1]]
                 gc.collect()
+                _sort_out(_burst(filler))
                 out.append("ok")
             elif op[0] == "setglobal":
                 color.set_global_colors_config(confs[op[1]])
                 gc.collect()
+                _sort_out(_burst(filler))
                 out.append("ok")
             elif op[0] == "enum":
                 enums[op[1]] = _mk_enum(case["enums"][op[1]])
@@ -546,6 +570,7 @@ def _replay(case, before=None, after=None):
                 for o in [o for o, ob in objs.items() if op[1] in ob.spec.get("types", {}).values()]:
                     del objs[o]
                 gc.collect()
+                _sort_out(_burst(filler))
                 out.append("ok")
             elif op[0] == "render":
                 _, o, k, mode = op
@@ -555,11 +580,9 @@ def _replay(case, before=None, after=None):
                 cur = conf if conf is not None else color.get_global_colors_config()
                 if before is not None:
                     before(i, cur)
-                if case["objs"][o].get("types"):
-                    _release(case.get("pad", 0))
                 rep = objs[o].observe(conf, mode)
                 fillers = _burst(filler)
-                _sort_out(fillers, _key_addrs(enums, confs))
+                _sort_out(fillers)
                 fillers = None
                 out.append(rep)
                 if after is not None:
@@ -646,14 +669,14 @@ def _fields(reply):
     return [dec_str(t) for t in reply.split()[1:]]
 
 
-def _closed(flat):
-    """no description refers to a syntax id that is not there (yet)"""
+def _straddles(before, after):
+    """a description of the configuration refers to a syntax id that was registered during the rendering"""
     from ak.color import _ColorConfColorDescr
-    for v in flat.values():
+    for v in before.values():
         parent = _ColorConfColorDescr._parse_init_str(v)[0]
-        if parent is not None and parent not in flat:
-            return False
-    return True
+        if parent is not None and parent not in before and parent in after:
+            return True
+    return False
 
 
 def _reference(case, i, descr, nc, mode):
@@ -675,12 +698,6 @@ def _reference(case, i, descr, nc, mode):
     return obj.observe(conf, mode)
 
 
-def _strict_late():
-    from harness.core import load_known
-    return any(f.get("property") == PROPERTY and f.get("status") == "known" and f.get("match") == "late_resolution"
-               for f in load_known())
-
-
 def oracle(case, replies):
     import ak.color as color
     info = {}
@@ -690,9 +707,9 @@ def oracle(case, replies):
 
     def after(i, conf):
         info[i][1] = _flat_descr(conf)
+    late = None
     try:
         _replay(case, before, after)
-        strict = _strict_late()
         for i, op in enumerate(case["ops"]):
             rep = replies[i]
             if op[0] in ("gp", "gpi"):
@@ -735,13 +752,16 @@ def oracle(case, replies):
                 return "lines: record %s: str() and ch_text() differ" % o
             # (b) no memory: the same object / format / configuration description in a fresh state
             d_before, d_after, conf_nc = info[i]
-            steady = d_before == d_after
-            if steady or _closed(d_before) or strict or nc:
-                ref = _reference(case, i, d_after, conf_nc, mode)
-                if ref != rep:
-                    what = "history" if (steady or _closed(d_before) or nc) else "late"
-                    return "%s: object %s (%s) under configuration %s mode %s is rendered differently in a fresh state" % (
-                        what, o, kind, k, mode)
+            ref = _reference(case, i, d_after, conf_nc, mode)
+            if ref != rep:
+                msg = "object %s (%s) under configuration %s mode %s is rendered differently in a fresh state" % (o, kind, k, mode)
+                if _straddles(d_before, d_after) and not nc:
+                    # known finding `late_resolution`: this very rendering registered a syntax id that a description
+                    # of the configuration was waiting for
+                    late = late or "late: " + msg
+                else:
+                    return "history: " + msg
+        return late
         return None
     finally:
         _reset()
